@@ -90,7 +90,11 @@ func ParseExpression(input string, lineOffset, columnOffet int) (Expression, err
 				Column:  &column,
 			}
 		}
-		panic(fmt.Errorf("unexpected error type %T: %v", err, err))
+		return nil, validation.ValidationError{
+			Message: err,
+			Line:    &lineOffset,
+			Column:  &columnOffet,
+		}
 	}
 
 	if exp == nil {
@@ -257,7 +261,7 @@ func parseAtom(lex *lexer.PeekingLexer) (Expression, error) {
 			NodeMeta: nodeMetaFromPosition(tok.Pos),
 		}
 		if err := i.Value.UnmarshalText([]byte(tok.Value)); err != nil {
-			return nil, err
+			return nil, &participle.ParseError{Pos: tok.Pos, Msg: fmt.Sprintf("invalid integer literal '%s'", tok.Value)}
 		}
 		return &i, nil
 	case TokenTypeFloat:
